@@ -26,7 +26,7 @@ import (
 func main() { Main(run) }
 
 const (
-	genT  = uint64(1) << 40
+	genT  = uint64(1) << 20
 	dcap  = 65536
 	pcap  = 4096
 	wfuel = 40
@@ -207,7 +207,7 @@ func run(out *Out, r *Rand, tier string, replay []string) {
 		out.Close("replay")
 		return
 	}
-	n := 1800
+	n := 4500
 	if tier == "thorough" {
 		n = 40000
 	}
